@@ -78,6 +78,9 @@ def finder_props(why, spec):
     return re.findall(r"\((C\d+)\)", why)
 
 
+HARNESS_NOTES = []
+
+
 def finder_fallback(pid, uname, und, scratch, spec, b=None):
     """Verus could not decide this unit (a function was rewritten beyond what the annotations / rules fit).
     Bounded fallback, labelled as such: the unit's finder runs the real compiled code against the executable
@@ -87,6 +90,9 @@ def finder_fallback(pid, uname, und, scratch, spec, b=None):
         return None
     mine = [f for f in (fr.get("result") or {}).get("failures", []) if pid in finder_props(f.get("why", ""), spec)]
     if not mine:
+        inc = (fr.get("result") or {}).get("panicked_tests") or []
+        if inc or not (fr.get("result") or {}).get("built", True):
+            HARNESS_NOTES.append("finder of unit %s did not run to completion: %s" % (uname, "; ".join(inc)[:300] or "build failed"))
         return None
     fr["input"] = dict(fr.get("input") or {}, case=mine[0]["case"], why=mine[0]["why"])
     v = {"obligation": "%s/executable-contract (bounded fallback, Verus undecided): %s" % (uname, fr["input"]["why"][:200]), "unit": uname, "fn": "-", "kind": "runtime",
@@ -313,7 +319,7 @@ def check_property(pid, tier, keep=False):
             print("VIOLATION property=%s replay=%s%s" % (pid, path, "" if has_input else " no-failing-input-found"))
         return 1
     if undecided:
-        for u in undecided:
+        for u in undecided + HARNESS_NOTES:
             print("UNDECIDED:", u)
         return 2
     return 0
